@@ -55,6 +55,30 @@ impl ListItem {
 //@include ghost_helper.rs
 
 //@impl src/build_helper.rs impl BuildHelper
+//@fn new
+//@rules R12x
+//@ret r
+//@head{
+    requires block_len > 0, num_free_blocks > 0
+    ensures match r {
+            Ok(h) => h_wf(h) && h.num_blocks == 0 && h.block_len == block_len && h.num_free_blocks == num_free_blocks && h.head_idx.is_none(),
+            Err(e) => e is AutomatonScale && block_len as int * num_free_blocks as int > u32::MAX,
+        },
+        r.is_ok() == (block_len as int * num_free_blocks as int <= u32::MAX),
+//@}
+//@closure 1 || => || -> (e: DaachorseError){
+    ensures e is AutomatonScale
+//@}
+//@start{
+    proof {
+        assert(block_len as int * num_free_blocks as int > 0) by (nonlinear_arith) requires block_len > 0, num_free_blocks > 0;
+    }
+//@}
+//@before 1 Ok(Self {{
+    proof {
+        assert forall|f: spec_fn(int) -> ListItem| list_ok(f, None, 0, 0) by { lemma_empty_window(f, 0); }
+    }
+//@}
 //@fn num_elements
 //@ret r
 //@head{
@@ -97,6 +121,9 @@ impl ListItem {
     requires h_basic(*self), h_active(*self, idx as int)
     ensures *r == h_it(*self, idx as int)
 //@}
+//@start{
+    proof { reveal(h_it); }
+//@}
 //@fn get_mut
 //@ret r
 //@head{
@@ -105,6 +132,9 @@ impl ListItem {
         final(self).items@ == old(self).items@.update(idx as int % h_cap(*old(self)), *final(r)),
         final(self).block_len == old(self).block_len, final(self).num_free_blocks == old(self).num_free_blocks,
         final(self).num_blocks == old(self).num_blocks, final(self).head_idx == old(self).head_idx,
+//@}
+//@start{
+    proof { reveal(h_it); }
 //@}
 //@fn is_used_base
 //@ret r
@@ -123,6 +153,9 @@ impl ListItem {
     requires h_basic(*old(self)), h_active(*old(self), base@ as int)
     ensures h_same_params(*old(self), *final(self)), final(self).head_idx == old(self).head_idx,
         final(self).items@ == old(self).items@.update(base@ as int % h_cap(*old(self)), ListItem { used_base: true, ..h_it(*old(self), base@ as int) }),
+//@}
+//@start{
+    proof { reveal(h_it); }
 //@}
 //@fn use_index
 //@head{
@@ -143,9 +176,17 @@ impl ListItem {
     let ghost h1 = *self;
     proof { lemma_update_frame(h0, h1, lo, hi, idx as int, ListItem { used_index: true, ..h_it(h0, idx as int) }); }
 //@}
+//@after 1 let next = self.get_mut(idx).next();{
+    let ghost h1a = *self;
+    proof { assert(h1.items@ =~= h1a.items@) by { reveal(h_it); } lemma_cells_same(h1, h1a); }
+//@}
+//@after 1 let prev = self.get_mut(idx).prev();{
+    let ghost h1b = *self;
+    proof { assert(h1a.items@ =~= h1b.items@) by { reveal(h_it); } lemma_cells_same(h1a, h1b); }
+//@}
 //@after 1 *self.get_mut(prev).next_mut() = next;{
     let ghost h2 = *self;
-    proof { lemma_update_frame(h1, h2, lo, hi, prev as int, ListItem { next: next, ..h_it(h1, prev as int) }); }
+    proof { lemma_update_frame(h1b, h2, lo, hi, prev as int, ListItem { next: next, ..h_it(h1b, prev as int) }); }
 //@}
 //@after 1 *self.get_mut(next).prev_mut() = prev;{
     let ghost h3 = *self;
@@ -158,10 +199,12 @@ impl ListItem {
     proof {
         let f0 = h_cells(h0);
         let f3 = h_cells(*self);
+        lemma_cells_same(h3, *self);
         assert(l_vac(f0, lo, hi, idx as int));
         assert(l_vac(f0, lo, hi, prev as int) && l_vac(f0, lo, hi, next as int));
         assert forall|j: int| lo <= j < hi implies #[trigger] f3(j) == cell_after_remove(f0(j), j, idx as int, prev as int, next as int) by {
             assert(h_it(*self, j) == h_it(h3, j));
+            assert(h_it(h1b, j) == h_it(h1a, j) && h_it(h1a, j) == h_it(h1, j));
         }
         lemma_remove(f0, f3, h0.head_idx, self.head_idx, lo, hi, idx as int, prev as int, next as int);
         assert forall|j: int| h_active(h0, j) implies h_used_base(*self, j) == h_used_base(h0, j)
@@ -196,6 +239,9 @@ impl ListItem {
     ensures h_same_params(*old(self), *final(self)), final(self).head_idx == old(self).head_idx,
         final(self).items@ == old(self).items@.update(idx as int % h_cap(*old(self)), ListItem { next: 0, prev: 0, used_base: false, used_index: false }),
 //@}
+//@start{
+    proof { reveal(h_it); }
+//@}
 //@fn vacant_iter
 //@ret r
 //@head{
@@ -229,5 +275,199 @@ impl ListItem {
         match verif_r { Some(b) => start <= b < end && !h_used_base(*self, b as int), None => verif_i == end },
         forall|b: int| start <= b < verif_i ==> h_used_base(*self, b), start <= verif_i <= end,
     decreases end - verif_i
+//@}
+//@fn push_block
+//@ret r
+//@head{
+    requires h_wf(*old(self))
+    ensures
+        r.is_ok() == (h_hi(*old(self)) <= u32::MAX - old(self).block_len),
+        match r {
+            Ok(_) => {
+                &&& h_wf(*final(self))
+                &&& final(self).block_len == old(self).block_len && final(self).num_free_blocks == old(self).num_free_blocks
+                &&& final(self).num_blocks == old(self).num_blocks + 1 && final(self).items@.len() == old(self).items@.len()
+                &&& h_lo(*old(self)) <= h_lo(*final(self)) <= h_hi(*old(self))
+                // flags of the surviving active elements are unchanged; the new block is all vacant / unused
+                &&& forall|j: int| h_lo(*final(self)) <= j < h_hi(*old(self)) ==>
+                        h_used_index(*final(self), j) == h_used_index(*old(self), j) && h_used_base(*final(self), j) == h_used_base(*old(self), j)
+                &&& forall|j: int| h_hi(*old(self)) <= j < h_hi(*final(self)) ==> !h_used_index(*final(self), j) && !h_used_base(*final(self), j)
+            },
+            Err(e) => e is AutomatonScale && *final(self) == *old(self),
+        }
+//@}
+//@start{
+    let ghost h0 = *self;
+    let ghost lo0 = h_lo(h0);
+    let ghost hi0 = h_hi(h0);
+    let ghost bl = self.block_len as int;
+    let ghost lo1 = if h_cap(h0) <= hi0 { lo0 + bl } else { lo0 };
+    let ghost hi1 = hi0 + bl;
+    proof { lemma_window(h0); }
+//@}
+//@before 1 let end_idx = (closed_block + 1) * self.block_len;{
+    proof {
+        let nb = self.num_blocks as int; let nf = self.num_free_blocks as int;
+        assert((closed_block as int + 1) * bl == lo0 + bl) by (nonlinear_arith) requires closed_block as int * bl == lo0;
+        assert((nb - nf + 1) * bl <= nb * bl) by (nonlinear_arith) requires nf >= 1, bl > 0;
+    }
+//@}
+//@loop 1{
+    invariant h_wf(*self), h_same_params(h0, *self), end_idx == lo0 + bl, lo0 + bl <= hi0,
+        lo0 == h_lo(h0), hi0 == h_hi(h0), bl == h0.block_len,
+        forall|j: int| lo0 <= j < hi0 ==> h_used_base(*self, j) == h_used_base(h0, j),
+        forall|j: int| end_idx <= j < hi0 ==> h_used_index(*self, j) == h_used_index(h0, j),
+    ensures self.head_idx.is_none() || self.head_idx.unwrap() >= end_idx,
+    decreases (match self.head_idx { Some(x) => hi0 - x, None => 0 })
+//@}
+//@before 1 self.use_index(head_idx);{
+    proof { lemma_head(h_cells(*self), self.head_idx, lo0, hi0); assert(h_vac(*self, lo0, hi0, head_idx as int)); }
+//@}
+//@after 1 self.use_index(head_idx);{
+    proof { lemma_head(h_cells(*self), self.head_idx, lo0, hi0); }
+//@}
+//@before 1 let old_len = self.num_elements();{
+    let ghost he = *self;
+    proof {
+        lemma_window(he);
+        lemma_head(h_cells(he), he.head_idx, lo0, hi0);
+        // no vacancy is left in the dropped block
+        assert forall|j: int| lo0 <= j < lo1 implies !l_vac(h_cells(he), lo0, hi0, j) by { }
+        lemma_shrink(h_cells(he), he.head_idx, lo0, lo1, hi0);
+        assert(forall|j: int| lo1 <= j < hi0 ==> h_used_index(he, j) == h_used_index(h0, j) && h_used_base(he, j) == h_used_base(h0, j));
+    }
+//@}
+//@before 1 self.num_blocks += 1;{
+    proof {
+        let nb = self.num_blocks as int;
+        assert(nb * bl + bl <= u32::MAX);
+        assert(nb < u32::MAX) by (nonlinear_arith) requires nb * bl + bl <= u32::MAX, bl >= 1, nb >= 0;
+    }
+//@}
+//@after 1 self.num_blocks += 1;{
+    let ghost hn = *self;
+    proof {
+        let nb = h0.num_blocks as int; let nf = h0.num_free_blocks as int;
+        assert((nb + 1) * bl == hi1) by (nonlinear_arith) requires hi0 == nb * bl, hi1 == hi0 + bl;
+        if nb >= nf {
+            assert(bl * nf <= nb * bl) by (nonlinear_arith) requires nb >= nf, bl > 0;
+            assert((nb + 1 - nf) * bl == (nb - nf) * bl + bl) by (nonlinear_arith);
+        } else {
+            assert(nb * bl < bl * nf) by (nonlinear_arith) requires nb < nf, bl > 0;
+        }
+        assert(h_lo(hn) == lo1 && h_hi(hn) == hi1);
+        assert(h_basic(hn));
+        lemma_window(hn);
+        lemma_cells_same(hn, he);
+        assert(list_ok(h_cells(hn), hn.head_idx, lo1, hi0));
+    }
+//@}
+//@loop 2{
+    invariant h_same_params(hn, *self), self.head_idx == hn.head_idx, old_len == hi0, new_len == hi1, h_basic(*self), hi1 == hi0 + bl, bl == self.block_len, hi1 <= u32::MAX,
+        h_lo(*self) == lo1, h_hi(*self) == hi1, hi1 - lo1 <= h_cap(*self), 0 <= lo1 <= hi0, h_cap(*self) == h_cap(hn),
+        forall|j: int| lo1 <= j < hi0 ==> h_it(*self, j) == h_it(hn, j),
+        forall|j: int| hi0 <= j < idx ==> h_it(*self, j) == loop_cell(j),
+//@}
+//@after 1 self.reset(idx);{
+    let ghost ha = *self;
+//@}
+//@after 1 *self.get_mut(idx).next_mut() = idx + 1;{
+    let ghost hb = *self;
+//@}
+//@after 1 *self.get_mut(idx).prev_mut() = idx.wrapping_sub(1);{
+    proof {
+        let hs = *self;
+        let z = ListItem { next: 0, prev: 0, used_base: false, used_index: false };
+        // the three writes hit the same ring cell; every other element of the window is untouched
+        assert(hs.items@ =~= hb.items@.update(idx as int % h_cap(hb), ListItem { prev: idx.wrapping_sub(1), ..h_it(hb, idx as int) }));
+        lemma_update_frame(hb, hs, lo1, hi1, idx as int, ListItem { prev: idx.wrapping_sub(1), ..h_it(hb, idx as int) });
+        assert(hb.items@ =~= ha.items@.update(idx as int % h_cap(ha), ListItem { next: (idx + 1) as u32, ..h_it(ha, idx as int) }));
+        lemma_update_frame(ha, hb, lo1, hi1, idx as int, ListItem { next: (idx + 1) as u32, ..h_it(ha, idx as int) });
+    }
+//@}
+//@before 1 self.reset(idx);{
+    let ghost hp = *self;
+//@}
+//@after 1 *self.get_mut(idx).prev_mut() = idx.wrapping_sub(1);{
+    proof {
+        lemma_update_frame(hp, ha, lo1, hi1, idx as int, ListItem { next: 0, prev: 0, used_base: false, used_index: false });
+    }
+//@}
+//@before 1 if let Some(head_idx) = self.head_idx {{
+    let ghost hl = *self;
+    proof {
+        lemma_congr(h_cells(hn), h_cells(hl), hn.head_idx, lo1, hi0);
+        if self.head_idx.is_some() {
+            lemma_head(h_cells(hl), hl.head_idx, lo1, hi0);
+            lemma_neighbours(h_cells(hl), hl.head_idx, lo1, hi0, self.head_idx.unwrap() as int);
+        }
+    }
+//@}
+//@after 1 *self.get_mut(old_len).prev_mut() = tail_idx;{
+    let ghost s1 = *self;
+//@}
+//@after 1 *self.get_mut(tail_idx).next_mut() = old_len;{
+    let ghost s2 = *self;
+//@}
+//@after 1 *self.get_mut(new_len - 1).next_mut() = head_idx;{
+    let ghost s3 = *self;
+//@}
+//@after 1 *self.get_mut(head_idx).prev_mut() = new_len - 1;{
+    proof {
+        lemma_splice_some(hl, s1, s2, s3, *self, lo1, hi0, hi1, head_idx as int, tail_idx as int);
+        assert(h_list(*self, lo1, hi1));
+        assert(forall|j: int| lo1 <= j < hi1 ==> h_it(*self, j).used_index == h_it(hl, j).used_index && h_it(*self, j).used_base == h_it(hl, j).used_base);
+    }
+//@}
+//@after 1 *self.get_mut(old_len).prev_mut() = new_len - 1;{
+    let ghost t1 = *self;
+//@}
+//@after 1 *self.get_mut(new_len - 1).next_mut() = old_len;{
+    let ghost t2 = *self;
+//@}
+//@after 1 self.head_idx = Some(old_len);{
+    proof {
+        lemma_splice_none(hl, t1, t2, lo1, hi0, hi1);
+        lemma_cells_same(t2, *self);
+        assert(h_list(*self, lo1, hi1));
+        assert(forall|j: int| lo1 <= j < hi1 ==> h_it(*self, j).used_index == h_it(hl, j).used_index && h_it(*self, j).used_base == h_it(hl, j).used_base);
+    }
+//@}
+//@before 1 Ok(()){
+    proof {
+        assert(h_list(*self, lo1, hi1));
+        assert forall|j: int| lo1 <= j < hi0 implies
+            h_used_index(*self, j) == h_used_index(h0, j) && h_used_base(*self, j) == h_used_base(h0, j) by {
+            assert(h_it(*self, j).used_index == h_it(hl, j).used_index);
+            assert(h_it(hl, j) == h_it(hn, j)); assert(h_it(hn, j) == h_it(he, j));
+            assert(h_used_index(he, j) == h_used_index(h0, j));
+        }
+        assert forall|j: int| hi0 <= j < hi1 implies !h_used_index(*self, j) && !h_used_base(*self, j) by {
+            assert(h_it(*self, j).used_index == h_it(hl, j).used_index);
+            assert(h_it(hl, j) == loop_cell(j));
+        }
+    }
+//@}
+//@endimpl
+
+spec fn vi_ok(it: VacantIter<'_>) -> bool {
+    h_wf(*it.list) && (it.idx.is_some() ==> h_vac(*it.list, h_lo(*it.list), h_hi(*it.list), it.idx.unwrap() as int))
+}
+
+//@impl src/build_helper.rs Iterator for VacantIter
+//@fn next
+//@ret r
+//@head{
+    requires vi_ok(*old(self))
+    ensures vi_ok(*final(self)), final(self).list == old(self).list, r == old(self).idx,
+        final(self).idx.is_some() ==> r.is_some() && final(self).idx.unwrap() > r.unwrap(),
+        r.is_none() ==> final(self).idx.is_none(),
+//@}
+//@closure 1 |&x| => |x_: &u32| -> (b: bool){
+    requires self.list.head_idx.is_some()
+    ensures b == (*x_ != self.list.head_idx.unwrap())
+//@}
+//@after 1 let curr = self.idx?;{
+    proof { lemma_window(*self.list); lemma_neighbours(h_cells(*self.list), self.list.head_idx, h_lo(*self.list), h_hi(*self.list), curr as int); }
 //@}
 //@endimpl
